@@ -23,10 +23,23 @@ var recNames = []string{"rec_a", "rec_b", "rec_c", "job:rec_d", "shared_x"}
 var alertNames20 = []string{"Alpha", "Beta", "Gamma", "shared_x"}
 
 type C20Scenario struct {
-	Init        Tree         `json:"init"`
-	Commits     []Commit     `json:"commits"`
-	Strict      bool         `json:"strict"`
+	Init    Tree     `json:"init"`
+	Commits []Commit `json:"commits"`
+	Strict  bool     `json:"strict"`
+	// Mixed: only paths under relaxed/ are parsed in relaxed mode (parser { relaxed = ["relaxed/.*"] }); files there are
+	// bare rule lists, everywhere else they are strict documents. A bare list moved to a strict path does not parse
+	// until its author rewrites it.
+	Mixed       bool         `json:"mixed,omitempty"`
 	Evaluations []Evaluation `json:"evaluations"`
+}
+
+var mixedPaths = []string{"rules/a.yml", "relaxed/r1.yml", "rules/b.yml", "relaxed/r2.yml", "rules/sub/d.yml", "alerts.yml", "relaxed/sub/r3.yml"}
+
+func relaxedPath(p string) bool { return strings.HasPrefix(p, "relaxed/") }
+
+// unparsable: pint cannot read the rules of this file where it is now
+func (sc *C20Scenario) unparsable(p string, f *File) bool {
+	return f.Broken || sc.Mixed && !f.Strict && !relaxedPath(p)
 }
 
 func (g *gen) refExpr() string {
@@ -100,16 +113,25 @@ func (g *gen) newRule20(f *File, all Tree) Rule {
 
 func drawC20(rt *rapid.T) C20Scenario {
 	g := &gen{rt: rt}
-	g.strict = g.pick("strict", 2) == 0
-	sc := C20Scenario{Strict: g.strict, Init: Tree{}}
+	mode := g.pick("mode", 5)
+	g.strict = mode < 2
+	sc := C20Scenario{Strict: g.strict, Mixed: mode == 4, Init: Tree{}}
+	allPaths := paths
+	if sc.Mixed {
+		allPaths = mixedPaths
+		sc.Strict = false
+	}
 	nf := 2 + g.pick("ninit", 3)
 	for i := 0; i < nf; i++ {
 		f := &File{Strict: g.strict}
+		if sc.Mixed {
+			f.Strict = !relaxedPath(allPaths[i])
+		}
 		n := 1 + g.pick("nrules", 4)
 		for j := 0; j < n; j++ {
 			f.Rules = append(f.Rules, g.newRule20(f, sc.Init))
 		}
-		sc.Init[paths[i]] = f
+		sc.Init[allPaths[i]] = f
 	}
 	fork := sc.Init.clone()
 	head := sc.Init.clone()
@@ -117,34 +139,102 @@ func drawC20(rt *rapid.T) C20Scenario {
 	for p := range head {
 		origin[p] = p
 	}
-	ncommits := 1 + g.pick("ncommits", detsim.Scale(3, 5))
+	// what an author does when saving a file: a bare list under a strict path gets rewritten as a strict document
+	fixFormat := func(p string, f *File) {
+		if sc.Mixed && !relaxedPath(p) {
+			f.Strict = true
+		}
+	}
+	type step struct {
+		op   string
+		p, q string
+	}
+	var script []step
+	// motifs: multi-commit situations that uniform choice of operations almost never lines up
+	ks0 := sortedKeys(head)
+	switch g.pick("motif", 8) {
+	case 0: // a path is freed by a deletion and taken over by a renamed file that was edited before
+		y := ks0[g.pick("my", len(ks0))]
+		x := ks0[g.pick("mx", len(ks0))]
+		if x != y {
+			script = []step{{"add", y, ""}, {"delete", x, ""}, {"rename", y, x}, {"remove", x, ""}}
+			if g.pick("mskip", 3) == 0 {
+				script = script[1:]
+			}
+		}
+	case 1: // rename, then edit the renamed file
+		y := ks0[g.pick("my", len(ks0))]
+		for _, cand := range allPaths {
+			if _, ok := head[cand]; !ok && (g.pick("mcand", 2) == 0 || cand == allPaths[len(allPaths)-1]) {
+				script = []step{{"rename", y, cand}, {"remove", cand, ""}}
+				break
+			}
+		}
+	case 2: // rename there and back again, then edit
+		y := ks0[g.pick("my", len(ks0))]
+		for _, cand := range allPaths {
+			if _, ok := head[cand]; !ok {
+				script = []step{{"rename", y, cand}, {"rename", cand, y}, {"remove", y, ""}}
+				break
+			}
+		}
+	}
+	ncommits := 1 + g.pick("ncommits", detsim.Scale(5, 7))
+	if len(script) > ncommits {
+		ncommits = len(script)
+	}
 	for c := 0; c < ncommits; c++ {
 		cm := Commit{Actor: "feature", Set: map[string]*File{}, Msg: fmt.Sprintf("feature %d", c)}
 		ks := sortedKeys(head)
 		if len(ks) == 0 {
 			break
 		}
-		switch op := g.pick("op", 10); {
-		case op == 0 && len(ks) > 1: // remove a whole file
-			p := ks[g.pick("fp", len(ks))]
+		var st step
+		if c < len(script) {
+			st = script[c]
+			if _, ok := head[st.p]; !ok {
+				break
+			}
+		} else {
+			st.p = ks[g.pick("fp", len(ks))]
+			switch op := g.pick("op", 10); {
+			case op == 0 && len(ks) > 1:
+				st.op = "delete"
+			case op == 1 && len(ks) < len(allPaths):
+				st.op = "rename"
+				var free []string
+				for _, cand := range allPaths {
+					if _, ok := head[cand]; !ok {
+						free = append(free, cand)
+					}
+				}
+				st.q = free[g.pick("np", len(free))]
+			case op == 2:
+				st.op = "add"
+			default:
+				st.op = "remove"
+			}
+		}
+		p := st.p
+		switch st.op {
+		case "delete": // remove a whole file
 			delete(head, p)
 			delete(origin, p)
 			cm.Delete = []string{p}
-		case op == 1 && len(ks) < len(paths): // pure rename
-			p := ks[g.pick("fp", len(ks))]
-			var np string
-			for _, cand := range paths {
-				if _, ok := head[cand]; !ok {
-					np = cand
-				}
-			}
+		case "rename": // pure rename (possibly onto a path that a deletion freed earlier)
+			np := st.q
 			head[np] = head[p]
 			delete(head, p)
 			origin[np] = origin[p]
 			delete(origin, p)
 			cm.Renames = [][2]string{{p, np}}
+		case "add": // an edit that removes nothing
+			f := head[p].clone()
+			f.Rules = append(f.Rules, g.newRule20(f, head))
+			fixFormat(p, f)
+			head[p] = f
+			cm.Set[p] = f.clone()
 		default: // remove one or more rules from a file; sometimes add a replacement elsewhere, sometimes break the file
-			p := ks[g.pick("fp", len(ks))]
 			f := head[p].clone()
 			var removed []Rule
 			nrm := 1 + g.pick("nremove", 2)
@@ -167,6 +257,7 @@ func drawC20(rt *rapid.T) C20Scenario {
 						}
 						if !clash {
 							qf.Rules = append(qf.Rules, removed[0])
+							fixFormat(q, qf)
 							head[q] = qf
 							cm.Set[q] = qf.clone()
 						}
@@ -190,6 +281,7 @@ func drawC20(rt *rapid.T) C20Scenario {
 			if len(f.Rules) == 0 && !f.Broken {
 				f.Rules = append(f.Rules, Rule{Kind: "record", Name: "keep_file_nonempty", Expr: "up"})
 			}
+			fixFormat(p, f)
 			head[p] = f
 			cm.Set[p] = f.clone()
 		}
@@ -267,6 +359,9 @@ func runC20(t *testing.T, sc C20Scenario, record bool) *detsim.Outcome {
 	if sc.Strict {
 		relaxed = ""
 	}
+	if sc.Mixed {
+		relaxed = "parser {\n  relaxed = [\"relaxed/.*\"]\n}"
+	}
 	if err := os.WriteFile(cfg, []byte(fmt.Sprintf(c20Config, relaxed)), 0o644); err != nil {
 		t.Fatal(err)
 	}
@@ -294,8 +389,8 @@ func runC20(t *testing.T, sc C20Scenario, record bool) *detsim.Outcome {
 			return out
 		}
 		anyBroken := false
-		for _, f := range ev.Head {
-			if f.Broken {
+		for p, f := range ev.Head {
+			if sc.unparsable(p, f) {
 				anyBroken = true
 			}
 		}
@@ -354,7 +449,7 @@ func runC20(t *testing.T, sc C20Scenario, record bool) *detsim.Outcome {
 				compute := func(includeBroken bool) (deps []dep, replaced bool) {
 					for _, p := range sortedKeys(ev.Head) {
 						f := ev.Head[p]
-						if f.Broken && !includeBroken {
+						if sc.unparsable(p, f) && !includeBroken {
 							continue
 						}
 						_, spans := f.Render()
@@ -375,7 +470,7 @@ func runC20(t *testing.T, sc C20Scenario, record bool) *detsim.Outcome {
 				rs := got[k]
 				delete(got, k)
 				fmt.Fprintf(digest, "%d|%s|%d|%d;", ci, fp, i, len(rs))
-				if hf != nil && hf.Broken {
+				if hf != nil && sc.unparsable(hp, hf) {
 					// the file the rule used to live in no longer parses: whether its rules count as removed is not
 					// something the property settles - only demand that nothing is reported without a dependant
 					out.Probes["removed_from_broken_file"]++
